@@ -1,5 +1,6 @@
 import Driver.Codec
 import WebAuthnModel.Model.KeyDesc
+import WebAuthnModel.Model.Url
 /- JSON form of `encoding/asn1` struct values: a struct is the array of its members in declaration order; integers travel as
    decimal strings (int64 does not fit a JSON double), byte strings as hex or null (nil), integer lists as arrays or null. -/
 namespace Driver
@@ -82,6 +83,10 @@ def handleAsn1 (op : String) (j : Json) : Except String (Option Json) := do
   | "asn1.octetString" =>
     match KeyDesc.octetStringExact (← getHex j "der") with
     | some b => return some (Json.mkObj [("ok", true), ("b", hex b)])
+    | none => return some (Json.mkObj [("ok", false)])
+  | "url.host" =>
+    match Url.hostOf (← getHex j "s") with
+    | some h => return some (Json.mkObj [("ok", true), ("host", hex h)])
     | none => return some (Json.mkObj [("ok", false)])
   | _ => return none
 
